@@ -188,11 +188,14 @@ impl<DataInterfaceType: DeduplicationDataInterface> FileDeduper<DataInterfaceTyp
                     #[cfg(xet_verif)]
                     utils::verif::emit("DdDecision", || {
                         format!(
-                            "\"kind\":\"dedup\",\"idx\":{},\"n\":{},\"bytes\":{},\"local\":{}",
+                            "\"kind\":\"dedup\",\"idx\":{},\"n\":{},\"bytes\":{},\"local\":{},\"x\":\"{}\",\"lo\":{},\"hi\":{}",
                             global_chunk_index_start + cur_idx,
                             n_deduped,
                             fse.unpacked_segment_bytes,
-                            fse.cas_hash == MerkleHash::default()
+                            fse.cas_hash == MerkleHash::default(),
+                            fse.cas_hash.hex(),
+                            fse.chunk_index_start,
+                            fse.chunk_index_end
                         )
                     });
                     self.add_file_data_sequence_entry(fse, n_deduped);
@@ -203,11 +206,14 @@ impl<DataInterfaceType: DeduplicationDataInterface> FileDeduper<DataInterfaceTyp
                     #[cfg(xet_verif)]
                     utils::verif::emit("DdDecision", || {
                         format!(
-                            "\"kind\":\"prevented\",\"idx\":{},\"n\":{},\"bytes\":{},\"local\":{}",
+                            "\"kind\":\"prevented\",\"idx\":{},\"n\":{},\"bytes\":{},\"local\":{},\"x\":\"{}\",\"lo\":{},\"hi\":{}",
                             global_chunk_index_start + cur_idx,
                             n_deduped,
                             fse.unpacked_segment_bytes,
-                            fse.cas_hash == MerkleHash::default()
+                            fse.cas_hash == MerkleHash::default(),
+                            fse.cas_hash.hex(),
+                            fse.chunk_index_start,
+                            fse.chunk_index_end
                         )
                     });
                     // The chunks of this hit are withheld from dedup; each of them is counted below if (and
